@@ -21,6 +21,28 @@ TRUSTED = [
     "recursion: _prepare_exception's own contract (SEEN unchanged on return; returns None for an exception already in SEEN) is used at its recursive call sites (induction over the finite set of reachable exceptions not in SEEN)",
 ]
 
+class ModuleStateMixin:
+    """module-level mutable state other than SEEN_EXCEPTIONS_CACHE (e.g. a hand-written memo) may hold anything earlier calls left there:
+    membership tests on it are unconstrained booleans, reads are unconstrained values, writes give no knowledge"""
+    def _is_unknown_global(self, node, st):
+        return isinstance(node, ast.Name) and node.id not in st.env and node.id.isupper() and node.id != 'SEEN_EXCEPTIONS_CACHE' and node.id != 'UNWANTED_BASE_CLASSES'
+    def ev_Compare(self, e, st, k, K):
+        if len(e.ops) == 1 and isinstance(e.ops[0], (ast.In, ast.NotIn)) and self._is_unknown_global(e.comparators[0], st):
+            self.unmodelled.add('membership in ' + e.comparators[0].id); return k(st, PyBool(fresh('in_' + e.comparators[0].id, BoolSort())))
+        return super().ev_Compare(e, st, k, K)
+    def ev_Subscript(self, e, st, k, K):
+        if self._is_unknown_global(e.value, st): self.unmodelled.add('read of ' + e.value.id); return k(st, fresh('from_' + e.value.id))
+        return super().ev_Subscript(e, st, k, K)
+    def assign(self, tgt, v, st, k, K):
+        if isinstance(tgt, ast.Subscript) and self._is_unknown_global(tgt.value, st): return k(st)
+        return super().assign(tgt, v, st, k, K)
+    def find_handler(self, name, recv=None):
+        h = super().find_handler(name, recv)
+        if h is None and name.split('.')[0].isupper() and name.split('.')[0] not in ('SEEN_EXCEPTIONS_CACHE',) and '.' in name:
+            return lambda ex_, st_, e, r, a, kw, k, K: k(st_, fresh('from_module_state'))
+        return h
+
+
 def gen_no_escape(src, FN):
     STRICT = False      # printable-exceptions assumption (TRUSTED): an exception raised by user __repr__/__str__ is itself printable
     seen = Function('seen', IntSort(), BoolSort())   # placeholder; SEEN set is ghost array in st.ghost
@@ -57,7 +79,7 @@ def gen_no_escape(src, FN):
         oblige(st, "_prepare_exception/rec-call: argument is an exception object (truthy link)", exc_v != Val.none)
         r = fresh('prepared'); st.pc.append(Implies(g['SEEN'][Val.a(exc_v)], r == Val.none)); return k(st, r)     # SEEN unchanged by the callee (its `finally`)
     State.env_id = lambda s: Val.a(to_val(s.ghost['self_exc']))
-    class Ex(Exec):
+    class Ex(ModuleStateMixin, Exec):
         def ev_Attribute(self, e, st, k, K):
             p = ast.unparse(e)
             if isinstance(e.value, ast.Name) and e.value.id in ('exc', 'exctype', 'res') and e.value.id in st.env and is_expr(st.env[e.value.id]):
@@ -127,7 +149,7 @@ def gen_links(src, FN):
     def h_id(ex, st, e, recv, args, kw, k, K): return k(st, PyInt(Val.a(to_val(args[0]))))
     def h_seen_add(ex, st, e, recv, args, kw, k, K): setG(st, SEEN=Store(st.ghost['SEEN'], ex.as_int(args[0]), True)); return k(st, None)
     def h_seen_discard(ex, st, e, recv, args, kw, k, K): setG(st, SEEN=Store(st.ghost['SEEN'], ex.as_int(args[0]), False)); return k(st, None)
-    def h_get_pickleable(ex, st, e, recv, args, kw, k, K): return k(st, fresh('pickleable'))
+    def h_get_pickleable(ex, st, e, recv, args, kw, k, K): v_ = fresh('pickleable'); st.pc.append(v_ != Val.none); setG(st, pickleable=v_); return k(st, v_)
     def h_coder(ex, st, e, recv, args, kw, k, K): return may_raise(ex, st, k, K, fresh('coded'))
     def h_type(ex, st, e, recv, args, kw, k, K): return k(st, st.heap.field('__class__')[Val.a(to_val(args[0]))])
     def h_getattr(ex, st, e, recv, args, kw, k, K):
@@ -142,7 +164,7 @@ def gen_links(src, FN):
         a = alloc(st)
         for f, v in kw.items(): st.pc.append(st.heap.field('repr_' + f)[a] == to_val(v))
         setG(st, built=Val.ref(a)); return k(st, Val.ref(a))
-    class Ex(Exec):
+    class Ex(ModuleStateMixin, Exec):
         def ev_Attribute(self, e, st, k, K):
             p = ast.unparse(e)
             if p.startswith('exc.__') or p in ('exc.exc_module', 'exc.exc_type', 'exc.exc_message', 'exc.exc_cause', 'exc.exc_context', 'exc.exc_suppress_context'):
@@ -159,7 +181,7 @@ def gen_links(src, FN):
     H = {'id': h_id, 'SEEN_EXCEPTIONS_CACHE.add': h_seen_add, 'SEEN_EXCEPTIONS_CACHE.discard': h_seen_discard, 'get_pickleable_exception': h_get_pickleable, 'coder.loads': h_coder, 'coder.dumps': h_coder,
          'type': h_type, 'getattr': h_getattr, 'ensure_serializable': h_ensure, '_prepare_exception': h_rec, 'ExceptionRepr': h_ExceptionRepr}
     ex = Ex(H)
-    st = State(); st.env = {'exc': exc, 'coder': coder}; st.ghost = {'SEEN': Const('SEEN0', I2B), 'built': Val.none}
+    st = State(); st.env = {'exc': exc, 'coder': coder}; st.ghost = {'SEEN': Const('SEEN0', I2B), 'built': Val.none, 'pickleable': Val.none}
     st.pc += [Val.is_ref(exc), Val.a(exc) < st.heap.next, st.heap.next > 0, Not(st.ghost['SEEN'][Val.a(exc)])]
     h = st.heap; ea = Val.a(exc); cause, ctxt, supp, klass = h.field('__cause__')[ea], h.field('__context__')[ea], h.field('__suppress_context__')[ea], h.field('__class__')[ea]
     st.pc += [Or(cause == Val.none, And(Val.is_ref(cause), is_exc_inst(cause))), Or(ctxt == Val.none, And(Val.is_ref(ctxt), is_exc_inst(ctxt))), Val.is_boolv(supp), Val.is_ref(klass)]
@@ -168,6 +190,8 @@ def gen_links(src, FN):
     def prep_ret(s, v):
         cnt['prepare:return'] += 1; r = to_val(v); hh = s.heap
         is_repr = And(s.ghost['built'] != Val.none, r == s.ghost['built'])          # the freshly built ExceptionRepr
+        oblige(s, "_prepare_exception/post: the result is made by THIS call for the current path - the picklable form, the ExceptionRepr just built, or None for an exception already on the path; never a form remembered from another path (its cut links would be wrong)  [C19]",
+               Or(is_repr, And(s.ghost['pickleable'] != Val.none, r == s.ghost['pickleable']), r == Val.none))
         fld = lambda f: hh.field('repr_' + f)[Val.a(r)]
         oblige(s, "_prepare_exception/post: exc_cause is the prepared __cause__ (None when absent)  [C19]", Implies(is_repr, fld('exc_cause') == If(cause != Val.none, prep(cause), Val.none)))
         oblige(s, "_prepare_exception/post: exc_context is the prepared __context__ unless suppressed  [C19]", Implies(is_repr, fld('exc_context') == If(And(ctxt != Val.none, Not(Val.b(supp))), prep(ctxt), Val.none)))
